@@ -149,7 +149,10 @@ def l5Shape (w : World) : Bool :=
 
 def step (c impl : String) : String :=
   match fields c with
-  | "lo" :: mode :: _breadth :: rest =>
+  | "lo" :: mode :: _breadth :: rest0 =>
+    -- mode hc: the store before the write precedes the case proper (whose `tuples` are the store after the
+    -- write: the HIGHER_CONSISTENCY answers reported under ci wi pi sc sw sp must be answers for that store)
+    let rest := if mode = "hc" then (match FgaCodec.tuples "pre" rest0 with | some (_, r) => r | none => rest0) else rest0
     match parseCase (" ".intercalate rest) with
     | none => "SKIP unparsable-case"
     | some cs =>
@@ -231,11 +234,14 @@ def step (c impl : String) : String :=
           (viol.find? (fun p => !p.2 && p.1.startsWith s!"fewer than limit objects: engine={eng}")).map (fun p =>
             s!"limit not reached in {shortRuns eng} of 3 limited runs: " ++ p.1)
         else none)
+      let tagv := fun (why : String) =>
+        if mode = "hc" then "HIGHER_CONSISTENCY ListObjects after a write (ListObjects iterator cache enabled and warm) does not answer for the store after the write: " ++ why
+        else why
       match systematic with
-      | some why => specViol why
+      | some why => specViol (tagv why)
       | none =>
       match viol.find? (fun p => !p.2) with
-      | some (why, _) => specViol why
+      | some (why, _) => specViol (tagv why)
       | none =>
         let inherited := (viol.filter (·.2)).map (·.1)
         let inhTag := if inherited.any (fun s => s.startsWith "inherited F12") then "-inherited-F12"
